@@ -8,12 +8,14 @@ open PS Sexp
 inductive Lbl where
   | prim (name : String)
   | var (i : Nat)
+  | const (tag : String) (repr : String)     -- Constant(type, value): python type of the value + its text
   deriving DecidableEq, Repr
 
 inductive VL where
   | int (n : Int)
   | list
   | clo (name : String)
+  | str (s : String)
   deriving DecidableEq, Repr
 
 abbrev Val := Tree VL
@@ -31,6 +33,10 @@ def leafVal (l : Lbl) (inp : List Val) : Except String Val :=
   | .var i => match inp[i]? with
     | some v => .ok v
     | none => .error "IndexError"
+  | .const "int" r => match r.toInt? with
+    | some n => .ok (vint n)
+    | none => .error "ValueError"
+  | .const tag r => .ok (.node (.str (tag ++ ":" ++ r)) [])
   | .prim "0" => .ok (vint 0)
   | .prim "1" => .ok (vint 1)
   | .prim "2" => .ok (vint 2)
@@ -72,6 +78,7 @@ partial def canon : Val → String
   | .node (.int n) _ => toString n
   | .node .list xs => "[" ++ ",".intercalate (xs.map canon) ++ "]"
   | .node (.clo _) _ => "<fun>"
+  | .node (.str s) _ => "'" ++ s ++ "'"
 
 partial def decodeVal : Sexp → Option Val
   | .atom s => do let n ← s.toInt?; pure (vint n)
@@ -81,6 +88,7 @@ partial def decodeVal : Sexp → Option Val
 def decodeLbl : Sexp → Option Lbl
   | .list [.atom "P", n] => do pure (.prim (← n.string?))
   | .list [.atom "V", i] => do pure (.var (← i.nat?))
+  | .list [.atom "K", t, r] => do pure (.const (← t.string?) (← r.string?))
   | _ => none
 
 partial def decodeProg : Sexp → Option (Tree Lbl)
